@@ -341,8 +341,23 @@ pub fn base_texts(rng: &mut Rng) -> Vec<Base> {
         r#"[["-"],[]]"#,
         r#"[["Hello world!","Hello","world!"],["p","ee11a5dff40c19a555f41fe42b48f00e618c91225622ae37b6c2bb67b76c4e49"]]"#,
         r#"[ [ "a\n\"b" , "é†" ] , [ ] , [ "" ] ]"#,
+        // strings whose content looks like structure: a scanner and a decoder that disagree about where a
+        // string ends will disagree about the shape of what follows
+        r#"[["a"],["]]"]]"#,
+        r#"[["a","],["],["]"],["[["]]"#,
+        r#"[["x","y"],[""],[""],["]],[["]]"#,
     ] {
         v.push(Base { entry: Entry::TagsJson, text: t.as_bytes().to_vec() });
+    }
+    {
+        let mut e = e2.clone();
+        e.tags = vec![vec!["a".into()], vec!["]]".into()], vec!["\"],[\"".into(), "],\"content\":\"".into()]];
+        e.content = "\"}".into();
+        v.push(Base { entry: Entry::EventJson, text: render_event(&e, &EvRender::plain(), rng).0 });
+        let mut r = EvRender::plain();
+        r.order = [5, 4, 0, 1, 2, 3, 6];
+        v.push(Base { entry: Entry::EventJson, text: render_event(&e, &r, rng).0 });
+        v.push(Base { entry: Entry::FilterJson, text: br##"{"#e":["a"],"#p":["]}"],"x":"\"]}","#t":["],\"#q\":["]}"##.to_vec() });
     }
     for t in [
         &br#"hello\t\tworld\n!!!", "next""#[..],
@@ -465,6 +480,29 @@ pub fn run(args: &Args) -> Report {
                 w.set_case(replay_of(b.entry, &t, big_buf(b.entry, &t)));
                 call(&mut rep, &w, b.entry, &t, big_buf(b.entry, &t));
                 rep.count("sweep:corrupt-byte");
+            }
+        }
+    }
+
+    // b2. a UTF-8 lead byte (or a truncated multi-byte sequence) directly before every structural
+    //     character, so that a lenient decoder would swallow a quote / bracket / comma as a continuation byte
+    {
+        let prefixes: [&[u8]; 10] = [&[0xC2], &[0xC3], &[0xDF], &[0xE0], &[0xEF], &[0xF0], &[0xF4], &[0xE2, 0x82], &[0xF0, 0x9F], &[0xF0, 0x9F, 0x98]];
+        for b in bases.iter() {
+            for pos in 0..b.text.len() {
+                if !b"\"[]{},:\\".contains(&b.text[pos]) {
+                    continue;
+                }
+                for pre in prefixes.iter() {
+                    if !mine(&mut caseno) {
+                        continue;
+                    }
+                    let mut t = b.text.clone();
+                    let _ = t.splice(pos..pos, pre.iter().cloned());
+                    w.set_case(replay_of(b.entry, &t, big_buf(b.entry, &t)));
+                    call(&mut rep, &w, b.entry, &t, big_buf(b.entry, &t));
+                    rep.count("sweep:lead-byte-before-structural-char");
+                }
             }
         }
     }
